@@ -26,7 +26,8 @@ TrPlanSet(c) == {}
 TrHopAlphabet(c, u) == {}
 
 Range(s) == {s[i] : i \in 1..Len(s)}
-FixPol(p) == [kind |-> p.kind, total |-> p.total, redirect |-> p.redirect, raise |-> p.raise, remove |-> Range(p.remove), rmsp |-> p.rmsp]
+FixPol(p) == [kind |-> p.kind, total |-> p.total, redirect |-> p.redirect, raise |-> p.raise, remove |-> Range(p.remove), rmsp |-> p.rmsp,
+              rmct |-> p.rmct]
 FixCfg(c) == [c EXCEPT !.reqpol = FixPol(@), !.clipol = FixPol(@)]
 
 \* header names arrive lower-cased (an encoding step of the harness); their classification is the spec's
